@@ -112,7 +112,21 @@ def _body_items(body):
     return ns
 
 
+def _composites():
+    """parameters whose datatype keeps its mutable state in MEMBER datatypes (fixed part of every root class)"""
+    from frappy.core import ArrayOf, FloatRange, IntRange, Parameter, StructOf, TupleOf
+    from frappy.datatypes import LimitsType
+    return {
+        'lim': Parameter('limits', LimitsType(FloatRange(unit='$')), default=(0, 0), readonly=False),
+        'tup': Parameter('a tuple', TupleOf(FloatRange(unit='$'), IntRange(0, 9)), default=(0, 0), readonly=False),
+        'arr': Parameter('an array', ArrayOf(FloatRange(unit='$'), 0, 3), default=[], readonly=False),
+        'sct': Parameter('a struct', StructOf(x=FloatRange(unit='$')), default={'x': 0}, readonly=False),
+    }
+
+
 CFGS = {
+    'pmaxK': {'p': {'max': 30}, 'value': {'unit': 'K'}},
+    'pvalmm': {'p': {'value': 5}, 'value': {'unit': 'mm'}},
     '-': {},
     'pmax': {'p': {'max': 30}},
     'pmin': {'p': {'min': 10}},
@@ -143,6 +157,14 @@ def _mutate(obj, mut):
         obj.parameters['p'].setProperty('visibility', 3)
     elif mut == 'cmdarg':
         obj.commands['c'].argument.setProperty('max', 3)
+    elif mut == 'limmember':
+        obj.parameters['lim'].datatype.members[0].setProperty('max', 5)
+    elif mut == 'tupmember':
+        obj.parameters['tup'].datatype.members[1].setProperty('max', 5)
+    elif mut == 'arrmember':
+        obj.parameters['arr'].datatype.members.setProperty('min', -3)
+    elif mut == 'sctmember':
+        obj.parameters['sct'].datatype.members['x'].setProperty('unit', 'V')
     elif mut == 'statustext':
         obj.parameters['status'].datatype.members[1].setProperty('maxchars', 10)
     elif mut == 'cmdres':
@@ -182,7 +204,19 @@ def _verdicts(dt):
     return res
 
 
+def _members(dt):
+    m = getattr(dt, 'members', None)
+    if m is None:
+        return []
+    if isinstance(m, dict):
+        return [m[k] for k in sorted(m)]
+    return list(m) if isinstance(m, (tuple, list)) else [m]
+
+
 def _verdicts_raw(dt):
+    inner = _members(dt)
+    if inner:       # composite: the limits live in the member datatypes
+        return '|'.join(_verdicts(m) for m in inner)
     res = []
     for v in PROBES:
         try:
@@ -272,6 +306,8 @@ class World:
             bs = bs + self.roots()
         self.n += 1
         ns = _body_items(body)
+        if not bases and not body.get('mixin'):
+            ns.update(_composites())
         ns['__module__'] = 'verif.c09'
         try:
             self.cls[x] = type('K%d' % self.n, bs, ns)
@@ -381,7 +417,8 @@ P_DER = ['props', 'props2', 'ppty', 'empty', 'dt', 'noinh', 'bare', 'bare3', 'no
 Q_DER = ['ppty', 'props', 'bare', 'none']
 V_DER = ['unit', 'lim', 'dt']
 C_DER = ['cmd', 'cprops', 'cgroup', 'method', 'none']
-MUTS = ['setmax', 'setmin', 'setunit', 'reginput', 'reginput2', 'pvis', 'cmdarg', 'cmdres', 'statustext', 'tgtmin']
+MUTS = ['setmax', 'setmin', 'setunit', 'reginput', 'reginput2', 'pvis', 'cmdarg', 'cmdres', 'statustext', 'tgtmin',
+        'limmember', 'tupmember', 'arrmember', 'sctmember']
 
 
 def random_program(rnd, nclasses, ninst, nmut):
